@@ -353,41 +353,41 @@ def decodeFloat32Full (v : List Rune) : Option UInt32 :=
 theorem ten_pow_pos (n : Nat) : 0 < 10 ^ n := Nat.pow_pos (by decide)
 
 /-- D, too large: `10^40 ≤ value` overflows -/
-theorem shortcut_overflow {m : Nat} {e : Int} (hm : m ≠ 0) (h : (decDigits m : Int) + e > 40) :
+theorem shortcut_overflow {m : Nat} {e : Int} (hm : m ≠ 0) (h : (decDigitCount m : Int) + e > 40) :
     (if e ≥ 0 then ratToF32Bits (m * 10 ^ e.toNat) 1 else ratToF32Bits m (10 ^ (-e).toNat))
       = none := by
   have hm' : 0 < m := Nat.pos_of_ne_zero hm
   obtain ⟨b1, _⟩ := decDigits_bounds hm'
   by_cases he : e ≥ 0
   · rw [if_pos he, ratToF32Bits_none_iff (Nat.mul_pos hm' (ten_pow_pos _)) (by decide)]
-    have hp : 10 ^ 40 ≤ 10 ^ (decDigits m - 1 + e.toNat) :=
+    have hp : 10 ^ 40 ≤ 10 ^ (decDigitCount m - 1 + e.toNat) :=
       Nat.pow_le_pow_right (by decide) (by omega)
     rw [Nat.pow_add] at hp
     have := Nat.mul_le_mul_right (10 ^ e.toNat) b1
     generalize m * 10 ^ e.toNat = x at *
-    generalize 10 ^ (decDigits m - 1) * 10 ^ e.toNat = y at *
+    generalize 10 ^ (decDigitCount m - 1) * 10 ^ e.toNat = y at *
     omega
   · rw [if_neg he, ratToF32Bits_none_iff hm' (ten_pow_pos _)]
-    have hp : 10 ^ (40 + (-e).toNat) ≤ 10 ^ (decDigits m - 1) :=
+    have hp : 10 ^ (40 + (-e).toNat) ≤ 10 ^ (decDigitCount m - 1) :=
       Nat.pow_le_pow_right (by decide) (by omega)
     rw [Nat.pow_add] at hp
     generalize 10 ^ (-e).toNat = P at *
-    generalize 10 ^ (decDigits m - 1) = y at *
+    generalize 10 ^ (decDigitCount m - 1) = y at *
     omega
 
 /-- D, too small: `value < 10^-60` rounds to zero -/
-theorem shortcut_underflow {m : Nat} {e : Int} (hm : m ≠ 0) (h : (decDigits m : Int) + e < -60) :
+theorem shortcut_underflow {m : Nat} {e : Int} (hm : m ≠ 0) (h : (decDigitCount m : Int) + e < -60) :
     (if e ≥ 0 then ratToF32Bits (m * 10 ^ e.toNat) 1 else ratToF32Bits m (10 ^ (-e).toNat))
       = some 0 := by
   have hm' : 0 < m := Nat.pos_of_ne_zero hm
   obtain ⟨_, b2⟩ := decDigits_bounds hm'
   have he : ¬ e ≥ 0 := by omega
   rw [if_neg he, ratToF32Bits_zero_iff hm' (ten_pow_pos _)]
-  have hp : 10 ^ (decDigits m + 61) ≤ 10 ^ (-e).toNat :=
+  have hp : 10 ^ (decDigitCount m + 61) ≤ 10 ^ (-e).toNat :=
     Nat.pow_le_pow_right (by decide) (by omega)
   rw [Nat.pow_add] at hp
   generalize 10 ^ (-e).toNat = P at *
-  generalize 10 ^ decDigits m = y at *
+  generalize 10 ^ decDigitCount m = y at *
   omega
 
 /-- D: the shortcuts never change the answer -/
@@ -403,20 +403,20 @@ theorem decodeFloat32_eq_full (v : List Rune) : decodeFloat32 v = decodeFloat32F
       · rw [if_pos hm, if_pos hm]
       · rw [if_neg hm, if_neg hm]
         have hm0 : m ≠ 0 := by simpa using hm
-        by_cases h1 : (decDigits m : Int) + e > 40
+        by_cases h1 : (decDigitCount m : Int) + e > 40
         · rw [if_pos h1, shortcut_overflow hm0 h1]
         · rw [if_neg h1]
-          by_cases h2 : (decDigits m : Int) + e < -60
+          by_cases h2 : (decDigitCount m : Int) + e < -60
           · rw [if_pos h2, shortcut_underflow hm0 h2]
           · rw [if_neg h2]
 
 /-- D in the requested form -/
 theorem decodeFloat32_shortcuts_sound {v : List Rune} {m : Nat} {e : Int}
     (_hp : parseDecLit v = some ⟨m, e⟩) (hm : m ≠ 0) :
-    ((decDigits m : Int) + e > 40 →
+    ((decDigitCount m : Int) + e > 40 →
       (if e ≥ 0 then ratToF32Bits (m * 10 ^ e.toNat) 1 else ratToF32Bits m (10 ^ (-e).toNat))
         = none) ∧
-    ((decDigits m : Int) + e < -60 →
+    ((decDigitCount m : Int) + e < -60 →
       (if e ≥ 0 then ratToF32Bits (m * 10 ^ e.toNat) 1 else ratToF32Bits m (10 ^ (-e).toNat))
         = some 0) :=
   ⟨shortcut_overflow hm, shortcut_underflow hm⟩
